@@ -147,8 +147,8 @@ def run(prop, tier, seed, t0):
     bins, notes, failed = plan.bins_for(cfgs, ('rel', 'chk') if tier == 'thorough' else ('rel',))
     if failed:
         return plan.fail_build(prop, failed)
-    size_ = 1100 if tier == 'quick' else 30000
-    nt = 8 if tier == 'quick' else 32
+    size_ = 1100 if tier == 'quick' else 180000
+    nt = 8 if tier == 'quick' else 96
     tasks = plan.spread_tasks('vlib.props.c16', 'task', prop, seed, size_, plan.plain(bins), ntasks=nt)
     m = core.run_tasks(tasks)
     return core.finish(prop, tier, seed, t0, m,
